@@ -75,7 +75,7 @@ Do(tg, c, cells, nc, extra) ==
               reach == ReachFrom(D2, Roots, 12)
           IN [t \in reach \cap DOMAIN D2 |-> D2[t]]
   /\ ops' = ops + 1
-  /\ nid' = nid + 4
+  /\ nid' = nid + 6
   /\ hist' = Append(hist, [op |-> c.op, p |-> tg[2], off |-> c.off, len |-> c.len, i |-> c.i, n |-> c.n, key |-> c.key,
                            kind |-> c.kind, mode |-> c.mode, hasattrs |-> c.hasattrs, attrs |-> AttrList(c.attrs),
                            k |-> c.key, v |-> c.v] @@ extra)
@@ -99,6 +99,9 @@ ArrayCalls(tg) ==
           IF kind = "u" THEN <<ValCell(nid + 1)>> ELSE <<TypeCell(nid + 1)>>,
           IF kind = "u" THEN NoMap ELSE (Tag(nid + 1) :> NestedInit(kind, nid + 1)), NoExtra)
   \/ \E i \in 0..Len(s) : Do(tg, [Base("arange") EXCEPT !.i = i, !.n = 2], <<ValCell(nid + 1), ValCell(nid + 2)>>, NoMap, NoExtra)
+  \/ (top /\ \E i \in 0..Len(s) :   \* one range insertion mixing plain values and a nested type (one C call; several Rust calls)
+        Do(tg, [Base("amix") EXCEPT !.i = i], <<ValCell(nid + 1), ValCell(nid + 2), TypeCell(nid + 3), ValCell(nid + 5)>>,
+           Tag(nid + 3) :> NestedInit("M", nid + 3), NoExtra))
   \/ Do(tg, Base("apushb"), <<ValCell(nid + 1)>>, NoMap, NoExtra)
   \/ Do(tg, Base("apushf"), <<ValCell(nid + 1)>>, NoMap, NoExtra)
   \/ \E i \in 0..(Len(s) - 1) : Do(tg, [Base("adel") EXCEPT !.i = i], <<>>, NoMap, NoExtra)
